@@ -54,13 +54,53 @@ class Opts:
         self.enum_prob = None           # weight of Enum among the leaves (None: the historical 0.12)
         self.sub_leaf_prob = 0.0        # a leaf is a user-defined subclass of one of `sub_bases` (model kind 'sub')
         self.sub_bases = ['date', 'datetime']
+        self.enum_words_prob = 0.0      # an Enum leaf is a "word" Enum: realistic member names, values that read like (other) members' names
+        self.falsy_prob = 0.0           # Optional[..] positions (Optional[Any] included) prefer falsy-but-valid values; Literal / Enum get falsy members
         self.__dict__.update(kw)
 
 
 ENUM_MIXINS = {'int': ['int', 'IntEnum'], 'str': ['str', 'StrEnum']}
 
 
+ENUM_WORDS = ['A', 'T', 'C', 'G', 'WHITE', 'BLACK', 'DARK_BLUE', 'LIGHT_RED', 'ON', 'OFF', 'NEXT', 'PREV', 'UP', 'DOWN',
+              'NOT_YET', 'X1', 'red', 'Blue', 'darkGreen', 'TOP_LEFT_2']
+# spellings under which a text can "read like" the member name N: as it is, other letter case, blanks / dashes for '_'
+NAME_SPELLINGS = [lambda n: n, lambda n: n.lower(), lambda n: n.upper(), lambda n: n.lower().replace('_', ' '),
+                  lambda n: n.replace('_', ' ').title(), lambda n: n.capitalize(), lambda n: n.replace('_', ' '),
+                  lambda n: n.lower().replace('_', '-'), lambda n: ' ' + n + ' ']
+
+
+def gen_word_enum(rng, o):
+    """An Enum the way lookup tables are written: member names are words, and the *values* are drawn from spellings of
+    the names of members of the same Enum (A='T', T='A'; WHITE='black', BLACK='white'; DARK_BLUE='dark blue'), next to
+    unrelated texts and numbers. Members are dumped as their value and loaded back by value, so whatever else a value
+    reads like must not matter."""
+    n = rng.randint(2, 4)
+    names = rng.sample(ENUM_WORDS, n)
+    perm = names[:]
+    rng.shuffle(perm)                      # fixed points allowed: a value may also read like the member's own name
+    members, seen = [], []
+    for nm, other in zip(names, perm):
+        r = rng.random()
+        if r < 0.75:
+            v = rng.choice(NAME_SPELLINGS)(other)
+        elif r < 0.9:
+            v = rng.choice(['game over', 'n/a', 'x y', '?'])
+        else:
+            v = rng.choice([2, 5, 11])
+        if any(v == w for w in seen):      # equal values would make the member an alias
+            v = f'{v} {len(seen)}'
+        seen.append(v)
+        members.append([nm, v])
+    t = T('enum', name=fresh('E'), members=members)
+    if o.enum_mixin_prob > 0 and all(isinstance(v, str) for _, v in members) and rng.random() < o.enum_mixin_prob:
+        t['mixin'] = rng.choice(ENUM_MIXINS['str'])
+    return t
+
+
 def gen_enum(rng, o=None):
+    if o is not None and o.enum_words_prob > 0 and rng.random() < o.enum_words_prob:
+        return _falsy_member(rng, gen_word_enum(rng, o), o)
     name = fresh('E')
     mixin = None
     if o is not None and o.enum_mixin_prob > 0 and rng.random() < o.enum_mixin_prob:
@@ -78,12 +118,33 @@ def gen_enum(rng, o=None):
             v = rng.choice(['x', 'yy', 'Zed', 'a b']) + str(i)
         members.append([f'M{i}', v])
     if mixin is not None:
-        return T('enum', name=name, members=members, mixin=mixin)
-    return T('enum', name=name, members=members)
+        return _falsy_member(rng, T('enum', name=name, members=members, mixin=mixin), o)
+    return _falsy_member(rng, T('enum', name=name, members=members), o)
 
 
-def gen_literal(rng):
+def _falsy_member(rng, t, o):
+    """(Opts.falsy_prob) one member of the Enum gets a falsy value of the Enum's value type: '' / 0"""
+    if o is None or o.falsy_prob <= 0 or rng.random() >= o.falsy_prob:
+        return t
+    mx = t.get('mixin')
+    cands = [0] if mx in ('int', 'IntEnum') else [''] if mx in ('str', 'StrEnum') else ['', '', 0, 0.0]
+    v = rng.choice(cands)
+    if not any(w == v for _, w in t['members']):
+        rng.choice(t['members'])[1] = v
+    return t
+
+
+def gen_literal(rng, o=None):
     pool = [7, -3, 'on', 'Off', 'x y', True, None, 12, 'abc']
+    if o is not None and o.falsy_prob > 0 and rng.random() < o.falsy_prob:
+        # falsy members ('' / 0 / False; 0 and False never together: Literal[0, False] is Literal[0] at run time)
+        pool = pool[:rng.randint(0, 3)] + rng.choice([['', 0], [''], ['', False], [0], [False], ['']])
+        rng.shuffle(pool)
+        vs = []
+        for v in pool:
+            if not any(v == w for w in vs):
+                vs.append(v)
+        return T('literal', vs=vs)
     rng.shuffle(pool)
     vs = []
     for v in pool[:rng.randint(1, 4)]:
@@ -108,12 +169,12 @@ def gen_type(rng, depth, o: Opts, hashable=False):
         if o.allow_enum and rng.random() < (0.12 if o.enum_prob is None else o.enum_prob):
             return gen_enum(rng, o)
         if o.allow_literal and rng.random() < 0.08:
-            return gen_literal(rng)
+            return gen_literal(rng, o)
         return T(rng.choice(choices))
     if hashable:
         k = rng.choice(['tuple', 'vtuple', 'optional', 'frozenset'])
         if k == 'optional':
-            return T('optional', gen_type(rng, depth - 1, o, True))
+            return _falsy_mark(T('optional', gen_type(rng, depth - 1, o, True)), o)
         if k == 'tuple':
             return T('tuple', *[gen_type(rng, depth - 1, o, True) for _ in range(rng.randint(1, 3))])
         if k == 'vtuple':
@@ -152,9 +213,9 @@ def gen_type(rng, depth, o: Opts, hashable=False):
         return T(k, kt, vt)
     if k == 'optional':
         inner = gen_type(rng, depth - 1, o)
-        if inner['k'] in ('optional', 'none', 'any', 'union'):
+        if inner['k'] in ('optional', 'none', 'any', 'union') and not (inner['k'] == 'any' and o.falsy_prob > 0):
             inner = T('int')
-        return opt_spelling(rng, T('optional', inner))
+        return opt_spelling(rng, _falsy_mark(T('optional', inner), o))
     if k == 'union':
         return gen_union(rng, depth, o)
     if k == 'namedtuple':
@@ -181,6 +242,13 @@ def _ty_for_lit(v):
     if v is None:
         return T('optional', T('int'))
     return T({int: 'int', str: 'str', float: 'float', bool: 'bool'}[type(v)])
+
+
+def _falsy_mark(t, o):
+    """(Opts.falsy_prob) the Optional node carries the weight with which gen_value picks a falsy-but-valid value for it"""
+    if o.falsy_prob > 0:
+        t['falsy'] = o.falsy_prob
+    return t
 
 
 def opt_spelling(rng, t):
@@ -215,7 +283,7 @@ def gen_union(rng, depth, o: Opts):
     if len(members) == 1:
         members.append(T('none'))
     if len(members) == 2 and members[1]['k'] == 'none':
-        return opt_spelling(rng, T('optional', members[0]))
+        return opt_spelling(rng, _falsy_mark(T('optional', members[0]), o))
     rng.shuffle(members)
     return T('union', *members)
 
@@ -383,6 +451,11 @@ def gen_value(rng, t, built, size=3):
     if k == 'literal':
         return rng.choice(t['vs'])
     if k == 'optional':
+        if t.get('falsy') and rng.random() < t['falsy']:
+            # the boundary between "no value" and a value: what is falsy / empty and still a value of the wrapped type
+            v = falsy_value(rng, a[0], built)
+            if v is not _NO_FALSY:
+                return v
         return None if rng.random() < 0.3 else gen_value(rng, a[0], built, size)
     if k == 'union':
         m = rng.choice(a)
@@ -423,6 +496,46 @@ def gen_value(rng, t, built, size=3):
     if k == 'cls':
         return gen_instance(rng, t, built, size - 1)
     raise ValueError(k)
+
+
+_NO_FALSY = object()
+
+
+def falsy_value(rng, t, built):
+    """a value of type `t` whose truth value is False (or that is empty), or _NO_FALSY when the type has none"""
+    k = t['k']
+    a = t.get('a', [])
+    table = {'str': [''], 'int': [0], 'float': [0.0, -0.0], 'bool': [False], 'bytes': [b''],
+             'any': ['', '', 0, 0.0, False, [], {}], 'decimal': [decimal.Decimal('0'), decimal.Decimal('0.00')],
+             'timedelta': [dt.timedelta(0)], 'time': [dt.time(0, 0)]}
+    if k in table:
+        return rng.choice(table[k])
+    if k == 'bytearray':
+        return bytearray()
+    if k == 'literal':
+        c = [v for v in t['vs'] if v is not None and not v]
+        return rng.choice(c) if c else _NO_FALSY
+    if k == 'enum':
+        c = [m for m in built.get(t['name']) if not m.value]
+        return rng.choice(c) if c else _NO_FALSY
+    if k == 'list':
+        return []
+    if k == 'deque':
+        return collections.deque()
+    if k == 'set':
+        return set()
+    if k == 'frozenset':
+        return frozenset()
+    if k == 'vtuple':
+        return ()
+    if k == 'dict':
+        return {}
+    if k == 'ordereddict':
+        return collections.OrderedDict()
+    if k == 'union':
+        c = [v for v in (falsy_value(rng, m, built) for m in a if m['k'] not in ('none', 'cls')) if v is not _NO_FALSY]
+        return rng.choice(c) if c else _NO_FALSY
+    return _NO_FALSY
 
 
 def sub_value(cls, v):
